@@ -101,7 +101,7 @@ def run(ck):
         lines.append("gamma %d %d %s" % (n, d, " ".join(frac(g) for g in gam))); impl.append(" ".join(frac(x) for x in hy.Gamma)); tol.append(None)
     # ---- (b) dynamics of hand-parameterised hierarchies -------------------------------------------
     for h in range(ck.n(10, 80)):
-        dim = rng.randint(2, 3)
+        dim = rng.randint(2, 3) if h % 3 != 1 else 3
         nb = rng.randint(1, 2)
         depth = rng.randint(0, 3)
         hy, _ = bare_hierarchy(heom, numpy, nb, depth, [rng.randint(1, 8) / 64.0 for _ in range(nb)])
@@ -110,6 +110,13 @@ def run(ck):
             for j in range(i, dim):
                 Hm[i, j] = Hm[j, i] = rng.randint(-8, 8) / 16.0
         Hm[0, :] = 0; Hm[:, 0] = 0
+        if h % 3 == 1 and dim >= 3:
+            # a complex Hermitian Hamiltonian (couplings with a phase)
+            Hm = Hm.astype(complex)
+            for i in range(1, dim):
+                for j in range(i + 1, dim):
+                    ph = rng.randint(1, 4) / 8.0
+                    Hm[i, j] = Hm[i, j] + 1j * ph; Hm[j, i] = numpy.conj(Hm[i, j])
         omega = numpy.array([0.0] + [rng.randint(0, 4) / 4.0] * (dim - 1))
         hy.ham = HamStub(Hm.copy(), omega)
         hy.dim = dim
@@ -133,13 +140,14 @@ def run(ck):
             psi[1] = 1.0
         r0 = numpy.outer(psi, psi.conj())
         rhoi = qr.ReducedDensityMatrix(data=r0.copy())
-        rhot = prop.propagate(rhoi)
+        Lord = (4, 2, 6, 3)[h % 4]            # every expansion order, not only the default
+        rhot = prop.propagate(rhoi, L=Lord) if Lord != 4 or h % 8 == 0 else prop.propagate(rhoi)
         Heff = Hm - numpy.diag(omega)
         vals = list(Heff.flatten()) + list(Vs.flatten()) + list(hy.lam) + list(hy.gamma) + [hy.kBT] + list(r0.flatten())
-        lines.append("heom %d %d %d %s 4 %d %s" % (dim, nb, depth, cfrac(dt), nt, " ".join(cfrac(x) for x in vals)))
+        lines.append("heom %d %d %d %s %d %d %s" % (dim, nb, depth, cfrac(dt), Lord, nt, " ".join(cfrac(x) for x in vals)))
         impl.append(" | ".join(" ".join(cfrac(x) for x in rhot.data[i].flatten()) for i in range(nt)))
         tol.append(1e-9 * max(1.0, float(abs(rhot.data).max())))
-        ck.case(("dyn", dim, nb, depth, Hm.tobytes(), r0.tobytes()), nontrivial=(nb >= 1 and depth >= 1), kind="dyn", depth=depth,
+        ck.case(("dyn", dim, nb, depth, Lord, Hm.tobytes(), r0.tobytes()), nontrivial=(nb >= 1 and depth >= 1), kind="dyn", depth=depth, order=Lord,
                 sample={"dim": dim, "nbath": nb, "depth": depth, "H": Hm.tolist(), "lam": hy.lam.tolist()} if h == 0 else None)
         tr = numpy.abs(numpy.trace(rhot.data, axis1=1, axis2=2) - numpy.trace(r0)).max()
         he = numpy.abs(rhot.data - numpy.conj(numpy.transpose(rhot.data, (0, 2, 1)))).max()
@@ -154,7 +162,7 @@ def run(ck):
             worst = 0.0
             for i in range(1, nt):
                 r1, r2 = ref, ref
-                for ll in range(1, 5):
+                for ll in range(1, Lord + 1):
                     r1 = -(dt / ll) * 1j * (Heff @ r1 - r1 @ Heff)
                     r2 = r2 + r1
                 ref = r2
